@@ -7,8 +7,8 @@
    structure of exp (exp 0 = 1, reciprocal for negative arguments, scaling into
    [0,1], the series stops by itself long before the cap of 1000 terms,
    positivity and range), the domain of ln and the special cases of pow. *)
-From Coq Require Import QArith.
-From PV Require Import Lib.Base Fixed.Model Fixed.Proofs C15.Proofs C15.ErrorBound.
+From Coq Require Import QArith Reals.
+From PV Require Import Lib.Base Fixed.Model Fixed.Proofs C15.Proofs C15.ErrorBound C15.LnPow C15.ExpReal C15.Run C15.RunFacts.
 Open Scope Z_scope.
 
 Theorem scale_is_floor : forall a, scale a = a / PREC /\ scale a * PREC <= a < (scale a + 1) * PREC.
@@ -72,6 +72,72 @@ Theorem pow_special : forall base e,
   (0 < e -> e <> ONE -> ref_pow 0 e = Ok 0) /\
   (ref_pow base e = Panic 1 <-> base = 0 /\ e < 0).
 Proof. exact pow_special_proof. Qed.
+
+(* ---------------- exp: analytic bound on (0,1] (Reals; Taylor-Lagrange via Coquelicot) ----------------
+   the reference never exceeds the real exponential and is at most 3.1e-24 below it *)
+Theorem exp_error_unit_interval : forall x, 0 < x <= ONE ->
+  (IZR (ref_exp x) / IZR PREC <= exp (IZR x / IZR PREC) /\
+   exp (IZR x / IZR PREC) - IZR (ref_exp x) / IZR PREC <= 31 / 10 * / 10 ^ 24)%R.
+Proof. intros x Hx. exact (exp_error_unit_proof x Hx). Qed.
+
+Theorem exp_at_integers : forall n, ref_exp (n * PREC) = ipow E n.
+Proof. exact ref_exp_int. Qed.
+
+(* ---------------- ln ---------------- *)
+(* every convergent is a quotient by a denominator >= 1 (no division by zero anywhere in the
+   loop) and the result is non-negative, for every non-negative argument and every cap *)
+Theorem ln_cf_step_quotient : forall x eps s,
+  ln_conv (fst (ln_step x eps s)) = fp_div (ln_num x s) (ln_den x s).
+Proof. exact ln_step_conv. Qed.
+Theorem ln_cf_well_defined : forall max_n x eps, 0 <= x ->
+  ln_inv (mp_ln_n_state max_n x eps) /\ 0 <= mp_ln_n max_n x eps /\
+  (forall s, ln_inv s -> ONE <= ln_den x s).
+Proof. exact mp_ln_n_wf_proof. Qed.
+Theorem ln_cf_invariant : ln_inv ln_init /\
+  (forall x eps s, 0 <= x -> ln_inv s -> ln_inv (fst (ln_step x eps s))).
+Proof. split; [exact ln_init_inv | exact ln_step_inv]. Qed.
+
+(* find_e: e^n <= x <= e^(n+1) in the fixed-point sense for every x >= 1/e (so for every x >= 1),
+   strict on the right unless n + 1 is the power of two where the doubling loop stopped *)
+Theorem find_e_bracket : forall x, fp_div ONE E <= x -> x <= hi 63 ->
+  exists j, (j <= 63)%nat /\ - 2 ^ Z.of_nat j <= find_e x < 2 ^ Z.of_nat j /\
+    ipow E (find_e x) <= x /\ x <= ipow E (find_e x + 1) /\
+    (find_e x + 1 < 2 ^ Z.of_nat j -> x < ipow E (find_e x + 1)).
+Proof. exact find_e_bracket_proof. Qed.
+(* ... and below 1/e the lower half can fail by one unit (a quirk of the reference itself:
+   the doubling loop squares 1/e, the bisection divides by the square of e) *)
+Theorem find_e_lower_refuted : exists x, 0 < x < fp_div ONE E /\ ~ (ipow E (find_e x) <= x).
+Proof. exact find_e_lower_refuted_proof. Qed.
+
+Theorem ln_one : ref_ln ONE = Some 0.
+Proof. exact ln_one_proof. Qed.
+Theorem ln_decomposition : forall x, 0 < x ->
+  ref_ln x = Some (find_e x * PREC + mp_ln_n 1000 (fp_div x (ipow E (find_e x)) - ONE) EPS).
+Proof. exact ref_ln_decomp. Qed.
+Theorem ln_ge_one : forall x, ONE <= x -> x <= hi 63 ->
+  exists v, ref_ln x = Some v /\ 0 <= find_e x /\ find_e x * PREC <= v.
+Proof. exact ln_ge_one_proof. Qed.
+(* the sign rule "ln x <= 0 for x < 1" does NOT hold for the reference: ln(1 - 1e-34) = +1.16e-25 *)
+Theorem ln_below_one_positive : exists x v, 0 < x < ONE /\ ref_ln x = Some v /\ 0 < v.
+Proof. exact ln_below_one_positive_proof. Qed.
+(* the runner's ref_ln_it (value, iterations) is ref_ln; termination of the continued fraction
+   before its cap is NOT proved: it is checked on every CLn case (iterations <= 1002) *)
+Theorem run_ln_is_ref_ln : forall x, ref_ln x = option_map fst (ref_ln_it x).
+Proof. exact ref_ln_it_fst. Qed.
+
+(* ---------------- pow ---------------- *)
+Theorem pow_one : forall base, ref_pow base ONE = Ok base.
+Proof. exact pow_one_proof. Qed.
+Theorem pow_decomposition : forall base e, e <> 0 -> e <> ONE -> base <> ONE -> base <> 0 ->
+  exists l, ref_ln (Z.abs base) = Some l /\
+    ref_pow base e =
+      Ok (if (base <? 0) && negb (Z.rem (Z.quot e PREC) 2 =? 0)
+          then - ref_exp (scale (l * e)) else ref_exp (scale (l * e))).
+Proof. exact pow_decomp_proof. Qed.
+Theorem pow_outcome : forall base e,
+  (base = 0 /\ e < 0 -> ref_pow base e = Panic 1) /\
+  (~ (base = 0 /\ e < 0) -> exists v, ref_pow base e = Ok v).
+Proof. exact pow_outcome_proof. Qed.
 
 (* non-vacuity / anchor values: exp(1) is the value pinned by the crate's own test *)
 Example c15_examples :
